@@ -1624,9 +1624,11 @@ def rename_apart(fn):
                     u.id = nm
 
 
-def propagate(fn):
+def propagate(fn, only_paths=False, only_names=None):
     """Block-local forward substitution of pure definitions `x = e` into the statements that follow in the same block,
-    until x is reassigned or something e reads may change; then dead pure stores are removed."""
+    until x is reassigned or something e reads may change; then dead pure stores are removed.
+    only_paths: only definitions whose right-hand side is a name / attribute / subscript chain (a local alias of an
+    existing object, e.g. `candidates = potential_transitions[transition]`) are expanded."""
     changed_any = False
     still_evaluated = set()      # names whose definition was written into a position that is evaluated whenever it was
     for scope in [n for n in ast.walk(fn) if isinstance(n, ast.FunctionDef)]:
@@ -1644,6 +1646,10 @@ def propagate(fn):
                 e = st.value
                 depth = [0]
                 if x in captured or not is_pure(e) or not _value_like(e) or x in _names(e):
+                    continue
+                if only_paths and (_path(e) is None or isinstance(e, ast.Name)):
+                    continue
+                if only_names is not None and x not in only_names:
                     continue
                 if isinstance(e, ast.Constant) and not isinstance(e.value, (int, float, str, bool, type(None))):
                     continue
@@ -2698,7 +2704,7 @@ def canonical(fn, helpers, sigs=None, cls=None):
     return digest, f
 
 
-def inlined_only(fn, helpers):
+def inlined_only(fn, helpers, ref_fn=None):
     """fn with the calls of `helpers` (functions the reference does not have) and of its own only-called closures replaced
     by their bodies; nothing else is rewritten.  Used for functions that are NOT refactorings of the reference: the rules
     then see the code the call executes instead of a call they know nothing about.  None if nothing was inlined."""
@@ -2708,10 +2714,9 @@ def inlined_only(fn, helpers):
     loc = local_helpers(f)
     hs = dict(helpers)
     hs.update(loc)
-    if not hs:
-        return None
     inl = Inliner(hs)
-    inl.run(f)
+    if hs:
+        inl.run(f)
     for owner, fld in _blocks_of(f):
         body = getattr(owner, fld)
         keep = [x for x in body if not (isinstance(x, ast.FunctionDef) and x.name in loc
@@ -2719,6 +2724,17 @@ def inlined_only(fn, helpers):
         if len(keep) != len(body):
             setattr(owner, fld, keep or [ast.Pass()])
     expand_star_tuples(f)
+    # local aliases of existing objects (`cands = table[key]`) are written out, so that rules anchored on `table[key].remove(...)`
+    # still see their constructs
+    known = {n.id for n in ast.walk(ref_fn) if isinstance(n, ast.Name)} if ref_fn is not None else set()
+    fresh = {n.id for n in ast.walk(f) if isinstance(n, ast.Name) and isinstance(n.ctx, ast.Store)} - known
+    _ALIAS[0] = alias_classes(f)
+    try:
+        for _ in range(3):
+            if not fresh or not propagate(f, only_paths=True, only_names=fresh):
+                break
+    finally:
+        _ALIAS[0] = {}
     if ast.dump(f) == before:
         return None
     ast.fix_missing_locations(f)
@@ -2959,7 +2975,7 @@ def restore_equivalent(trees, tree_digest=None):
             # not a refactoring of the reference: analysed as written, except that calls of newly extracted helpers /
             # closures are replaced by their bodies (behaviour preserving) so that the rules see what the call does
             try:
-                new = inlined_only(node, {k: v for k, v in hc.items() if (k if isinstance(k, str) else k[1]) not in _names_of_reference(ref, m)})
+                new = inlined_only(node, {k: v for k, v in hc.items() if (k if isinstance(k, str) else k[1]) not in _names_of_reference(ref, m)}, r)
             except RecursionError:
                 new = None
             if new is not None:
